@@ -9,7 +9,7 @@ import textwrap
 from typing import Dict, List, Optional, Set
 
 import spec_classes.utils.method_builder as mb
-from spec_classes import spec_class
+from spec_classes import Attr, spec_class
 
 CAPTURED = []
 _real_exec = exec
@@ -35,6 +35,7 @@ class Inner:
     name: str
     v: int = 0
     hidden: int = 0
+    secret: int = Attr(default=0, init=False)          # not a constructor argument: no nested keyword anywhere
 
 
 @spec_class(bootstrap=True)
